@@ -674,6 +674,36 @@ def translate(repo):
           "Definition src_default_max_write_bytes : N := %d." % wl["defaults"][1],
           "Definition src_min_max_write_bytes : N := %d." % wl["defaults"][2], ""]
 
+    # ---- src/headers.rs: HeaderList::{add, get_only, get_all, remove_only, remove_all} -- loop shapes, the comparison,
+    #      the Vec method that takes a header out
+    hd = dict(cmp="", rm="")
+    try:
+        hsrc = read(repo, "src/headers.rs")
+        i = hsrc.index("impl HeaderList")
+        hs = hsrc[i:]
+        flat = lambda name: re.sub(r"\s+", "", fn_body(hs, "pub fn " + name))
+        CMP = r"\.name\.([a-z_]+)\(name\.as_ref\(\)\)"
+        m = re.fullmatch(r"self\.0\.push\(Header::new\(name\.as_ref\(\)\.try_into\(\)\.unwrap\(\),value\)\);", flat("add"))
+        if not m:
+            raise ValueError("add: push(Header::new(name.try_into().unwrap(), value))")
+        m1 = re.fullmatch(r"letmutvalue=None;forheaderin&self\.0\{ifheader" + CMP + r"\{ifvalue\.is_some\(\)\{returnNone;\}value=Some\(&header\.value\);\}\}value", flat("get_only"))
+        m2 = re.fullmatch(r"letmutheaders=Vec::new\(\);forheaderin&self\.0\{ifheader" + CMP + r"\{headers\.push\(&header\.value\);\}\}headers", flat("get_all"))
+        m3 = re.fullmatch(r"letmutiter=self\.remove_all\(name\)\.into_iter\(\);match\(iter\.next\(\),iter\.next\(\)\)\{\(Some\(value\),None\)=>Some\(value\),_=>None,\}", flat("remove_only"))
+        m4 = re.fullmatch(r"letmutvalues=Vec::new\(\);letmutn=0;whilen<self\.0\.len\(\)\{ifself\.0\[n\]" + CMP + r"\{letheader=self\.0\.([a-z_]+)\(n\);values\.push\(header\.value\);\}else\{n\+=1;\}\}values", flat("remove_all"))
+        if not (m1 and m2 and m3 and m4):
+            raise ValueError("loop shape of %s" % ", ".join(n for n, mm in (("get_only", m1), ("get_all", m2), ("remove_only", m3), ("remove_all", m4)) if not mm))
+        cmps = {m1.group(1), m2.group(1), m4.group(1)}
+        if len(cmps) != 1:
+            raise ValueError("different comparisons %r" % cmps)
+        hd = dict(cmp=cmps.pop(), rm=m4.group(2))
+    except Exception as e:   # noqa
+        P.append("src/headers.rs HeaderList: cannot translate (%s)" % e)
+        hd = dict(cmp="eq_ignore_ascii_case", rm="remove")
+    L += ["(* src/headers.rs HeaderList: the loops have the shapes Model/Headers.v transcribes (checked by the translator);",
+          "   the name comparison they all use and the Vec method by which remove_all takes a header out *)",
+          "Definition src_hdr_compare : list N := %s." % coq_bytes(hd["cmp"]),
+          "Definition src_hdr_remove_method : list N := %s." % coq_bytes(hd["rm"]), ""]
+
     # ---- src/head.rs: the two regex literals
     rx = []
     try:
@@ -692,7 +722,7 @@ def translate(repo):
     items = [("chunk", "src/util.rs"), ("event_queue", "src/response.rs"), ("conn_buf", "src/http_conn.rs HttpConn.buf"), ("conn_guards", "src/http_conn.rs state guards"),
              ("time", "src/time.rs"), ("content_type", "src/content_type.rs"), ("log_prio", "src/log/logger.rs log()"),
              ("event_fmt", "src/event.rs"), ("regex", "src/head.rs"), ("cookie", "src/cookie.rs"), ("request", "src/request.rs"),
-             ("json", "src/log/tag_value.rs"), ("jsonl", "src/log/logger.rs write_jsonl"), ("writer", "src/log/log_file_writer.rs")]
+             ("json", "src/log/tag_value.rs"), ("jsonl", "src/log/logger.rs write_jsonl"), ("writer", "src/log/log_file_writer.rs"), ("headers", "src/headers.rs")]
     L.append("(* what the translator could not read, per item (0 everywhere = the translation is complete) *)")
     for key, prefix in items:
         L.append("Definition src_problems_%s : nat := %d." % (key, sum(1 for p in P if p.startswith(prefix))))
